@@ -417,6 +417,15 @@ def _returned_value(e):
     return None
 
 
+def _two_way_split(arms):
+    """`match v { Variant(..) => a, _ => b }`: one pattern against everything else, no guards: reads as `if let Variant(..) = v`"""
+    if len(arms) != 2 or any(a.get("guard") for a in arms):
+        return False
+    last = H.strip(arms[1]["pat"])
+    first = H.strip(arms[0]["pat"])
+    return last.get("k") == "Wild" and first.get("k") in ("TupleStruct", "Struct", "Path", "Expr")
+
+
 def _is_failure_value(e):
     """`Err(..)` or `None`"""
     e = H.strip(e)
@@ -1210,8 +1219,26 @@ def normalize_lines(events):
             out.append(ev)
             i += 1
     out = [ev for ev in out if ctx_feasible(ev.ctx)]
+    out = _merge_complementary(out)
     for k, ev in enumerate(out):
         ev.order = k
+    return out
+
+
+def _merge_complementary(events):
+    """Two adjacent emits of the same line from the same statement under `c` and `not c` (all else equal) are one emit without that
+    condition: the line is written either way (a multi-line hole chosen by `c` in front of it made it appear once per choice)."""
+    out = []
+    for ev in events:
+        prev = out[-1] if out else None
+        if prev is not None and ev.kind == "emit" and prev.kind == "emit" and prev.node is ev.node and prev.parts == ev.parts \
+                and len(prev.ctx) == len(ev.ctx) and prev.ctx and prev.ctx[:-1] == ev.ctx[:-1] \
+                and prev.ctx[-1][0] == "alt" and ev.ctx[-1][0] == "alt":
+            d1, d2 = decision(prev.ctx[-1][1], prev.ctx[-1][2]), decision(ev.ctx[-1][1], ev.ctx[-1][2])
+            if d1[0] == d2[0] and d1[1] != d2[1]:
+                prev.ctx = prev.ctx[:-1]
+                continue
+        out.append(ev)
     return out
 
 
@@ -1303,9 +1330,18 @@ class Extractor:
         env = Env()
         names = []
         for p in nb["params"]:
-            for i, name in H.pat_bindings(p):
+            bs = list(H.pat_bindings(p))
+            for i, name in bs:
                 env.m[i] = ("param", name)
-                names.append(name)
+            pp = H.strip(p) if isinstance(p, dict) else p
+            while isinstance(pp, dict) and pp.get("k") in ("Ref", "Deref", "Box"):
+                pp = pp["pat"]
+            if isinstance(pp, dict) and pp.get("k") == "Tuple" and all(q.get("k") == "Binding" and not q.get("sub") for q in pp["pats"]):
+                names.append(tuple(q["name"] for q in pp["pats"]))     # `(a, b): (&str, &str)`: one positional parameter, two names
+            elif len(bs) == 1:
+                names.append(bs[0][1])
+            else:
+                names.append(None if not bs else tuple(n for _i, n in bs))
         self.params[path] = names
         out = []
         self._visit(path, nb["value"], env, (), out, how="tail")
@@ -1345,8 +1381,8 @@ class Extractor:
         it = self.NF.nf(e, env)
         if CANON and isinstance(it, tuple) and it[0] == "call" and isinstance(it[1], str) and not it[1].startswith("iter::"):
             ex = self._ce().expand(it)
-            if ex != it and isinstance(ex, tuple) and (ex[0] == "field" or (ex[0] == "call" and str(ex[1]).startswith("iter::"))):
-                return ex
+            if ex != it and isinstance(ex, tuple) and (ex[0] in ("field", "tuple") or (ex[0] == "call" and str(ex[1]).startswith("iter::"))):
+                return ex     # (a helper returning an array literal is unrolled like the literal)
         return it
 
     def _visit(self, fn, e, env, ctx, out, how):
@@ -1635,7 +1671,7 @@ class EnvWalker:
                     return ("call", it[1], (inner, nf_replace(it[2][1], ("elem", it[2][0]), ("elem", inner)))) + tuple(it[3:])
                 return it
             ex = self._ce_.expand(it)
-            if ex != it and isinstance(ex, tuple) and (ex[0] == "field" or (ex[0] == "call" and str(ex[1]).startswith("iter::"))):
+            if ex != it and isinstance(ex, tuple) and (ex[0] in ("field", "tuple") or (ex[0] == "call" and str(ex[1]).startswith("iter::"))):
                 return ex
         return it
 
@@ -1814,6 +1850,10 @@ def nf_simplify(n):
             return base[1][int(n[2])]
         if base[0] == "call" and isinstance(base[1], str) and base[1].startswith("ctor:") and str(n[2]).isdigit() and int(n[2]) < len(base[2]):
             return base[2][int(n[2])]     # `Wrapper(x).0`
+        if base[0] in ("ifelse", "match") and str(n[2]).isdigit():
+            pr = project(base, int(n[2]))      # a component of a tuple chosen by a test: the test chooses between the components
+            if pr != n:
+                return nf_simplify(pr) if pr[0] != "field" else pr
     return n
 
 
@@ -2135,8 +2175,9 @@ class CallExpander:
             if x.get("k") == "Ret" and id(x) not in folded:
                 return None
             if x.get("k") == "Match" and option_match([pat_label(a["pat"]) for a in x.get("arms", [])], x.get("arms", [])) is None \
-                    and not _bool_patterns(x.get("arms", [])) and not _literal_match(x.get("arms", [])) and not _matches_macro(x.get("arms", [])):
-                return None  # only matches that read as if/else (option, tuple of booleans); tables and variant dispatch stay opaque calls
+                    and not _bool_patterns(x.get("arms", [])) and not _literal_match(x.get("arms", [])) and not _matches_macro(x.get("arms", [])) \
+                    and not _two_way_split(x.get("arms", [])):
+                return None  # only matches that read as if/else (option, tuple of booleans, one variant against the rest); tables and variant dispatch stay opaque calls
         v = self.NF.nf(nb["value"], env)
         if any(r[0] in ("unknown", "local") for r in nf_roots(v)):
             return None
